@@ -10,6 +10,9 @@ Case format (JSON-able):
    "storage": "dict" | "file_array" | "shared_memory_dict"}
 Leaf values are strings.  A function returns `name(p=<canon>,...)`; with several outputs a tuple of
 `out(<o>;<app>)`; with internal axes an object ndarray (lists for rank 1 if "intlist") of `elem(<base>;j1,j2)`.
+Optional fd["wrap"] in {"tuple", "list", "nd"}: every element value is the PAIR (base, "#") - a tuple, a list or a
+1-d object ndarray - instead of the string base (canon renders it "[base,#]"); a consumer logs for each
+parameter produced by a wrapped function what it was handed: `p~e=` (one pair) or `p~a<ndim>=` (object array of pairs).
 """
 from __future__ import annotations
 
@@ -38,6 +41,21 @@ def canon(v) -> str:
     if v is None:
         return "None"
     return str(v)
+
+
+def arr_obs_k(v, k):
+    """Observation of the result of a WRAPPED function whose array part has k dimensions (elements are pairs):
+    k = 0: ["val", canon]; otherwise ["arr", shape, flat canon of the elements] over the first k dimensions - when the
+    array does not have exactly k dimensions (pairs merged into an extra axis, ...) its real shape is reported."""
+    if k == 0:
+        return ["val", canon(v)]
+    if not isinstance(v, np.ndarray) or v.ndim != k:
+        return arr_obs(v)
+    data = np.ma.getdata(v)
+    mask = np.ma.getmaskarray(v)
+    flat = ["--" if mask[idx] or data[idx] is np.ma.masked else canon(data[idx])
+            for idx in itertools.product(*map(range, v.shape))]
+    return ["arr", [int(x) for x in v.shape], flat]
 
 
 def arr_obs(v):
@@ -102,15 +120,56 @@ class CallLog:
             return [x for x in f.read().split("\n") if x]
 
 
-def make_callable(fd, log: CallLog, fail_at=None):
-    """fail_at: optional (call_index, exception factory) to raise at the n-th call of this function."""
+def wrap_value(base: str, kind):
+    """The element value of a wrapped function: the pair (base, "#") as tuple / list / 1-d object ndarray
+    (the second component is constant to keep the rendered strings short)."""
+    if not kind:
+        return base
+    if kind == "tuple":
+        return (base, "#")
+    if kind == "list":
+        return [base, "#"]
+    a = np.empty(2, dtype=object)
+    a[0], a[1] = base, "#"
+    return a
+
+
+def _is_pair(v, kind) -> bool:
+    if kind == "tuple":
+        ok = isinstance(v, tuple)
+    elif kind == "list":
+        ok = isinstance(v, list)
+    else:
+        ok = isinstance(v, np.ndarray) and not isinstance(v, np.ma.MaskedArray) and v.ndim == 1 and v.dtype == object
+    return bool(ok) and len(v) == 2 and all(isinstance(x, str) for x in v)
+
+
+def arg_tag(v, kind) -> str:
+    """What a consumer was handed for a parameter produced by a wrapped function: `~e` one pair of the producer's
+    kind, `~a<k>` a k-d object array whose (unmasked) elements are such pairs; anything else is tagged `~?...`."""
+    if _is_pair(v, kind):
+        return "~e"
+    if isinstance(v, np.ndarray) and v.dtype == object and v.ndim > 0:
+        data = np.ma.getdata(v)
+        mask = np.ma.getmaskarray(v)
+        good = all(mask[i] or data[i] is np.ma.masked or _is_pair(data[i], kind) for i in np.ndindex(*v.shape))
+        return f"~a{v.ndim}" if good else f"~?a{v.ndim}"
+    return "~?" + type(v).__name__
+
+
+def make_callable(fd, log: CallLog, fail_at=None, wkinds=None):
+    """fail_at: optional (call_index, exception factory) to raise at the n-th call of this function.
+    wkinds: {parameter name: wrap kind of its producer} for parameters produced by wrapped functions."""
     name, params, outs = fd["name"], fd["params"], fd["outs"]
     ish = tuple(fd.get("ret") if fd.get("ret") is not None else fd.get("int") or ())
     aslist = fd.get("intlist", False)
+    wrap = fd.get("wrap")
+    wkinds = wkinds or {}
     counter = itertools.count()
 
     def body(**kw):
-        app = name + "(" + ",".join(f"{p}={canon(kw[p])}" for p in params) + ")"
+        app = name + "(" + ",".join(
+            f"{p}{arg_tag(kw[p], wkinds[p]) if p in wkinds else ''}={canon(kw[p])}" for p in params) + ")"
         log.add(app)
         n = next(counter)
         if fail_at is not None and fail_at[0] == n:
@@ -118,10 +177,10 @@ def make_callable(fd, log: CallLog, fail_at=None):
 
         def value(base):
             if not ish:
-                return base
+                return wrap_value(base, wrap)
             a = np.empty(ish, dtype=object)
             for j in itertools.product(*map(range, ish)):
-                a[j] = "elem(" + base + ";" + ",".join(map(str, j)) + ")"
+                a[j] = wrap_value("elem(" + base + ";" + ",".join(map(str, j)) + ")", wrap)
             return a.tolist() if (aslist and len(ish) == 1) else a
 
         if len(outs) == 1:
@@ -153,10 +212,11 @@ def build_pipeline(case, log: CallLog, fail=None, **pipeline_kw):
     from pipefunc import PipeFunc, Pipeline
 
     funcs = []
+    wkinds = {o: fd["wrap"] for fd in case["funcs"] if fd.get("wrap") for o in fd["outs"]}
     for fd in case["funcs"]:
         outs = fd["outs"]
         f = PipeFunc(
-            make_callable(fd, log, (fail or {}).get(fd["name"])),
+            make_callable(fd, log, (fail or {}).get(fd["name"]), wkinds=wkinds),
             output_name=outs[0] if len(outs) == 1 else tuple(outs),
             mapspec=spec_str(fd.get("spec")),
             internal_shape=tuple(fd["int"]) if fd.get("int") else None,
@@ -196,12 +256,18 @@ def results_obs(case, results):
                 continue
             r = results[o]
             store = r.store
+            if fd.get("wrap"):
+                sp = fd.get("spec")
+                k = len(sp["o"][0][1]) if sp else len(fd.get("ret") or fd.get("int") or [])
+                obs = lambda v: arr_obs_k(v, k)  # noqa: E731
+            else:
+                obs = arr_obs
             if hasattr(store, "to_array"):
-                stored = arr_obs(store.to_array())
+                stored = obs(store.to_array())
             elif hasattr(store, "value"):
-                stored = arr_obs(store.value)
+                stored = obs(store.value)
             else:
                 from pipefunc._utils import load
-                stored = arr_obs(load(store))
-            out.append([o, arr_obs(r.output), stored])
+                stored = obs(load(store))
+            out.append([o, obs(r.output), stored])
     return out
